@@ -15,8 +15,10 @@ import (
 	"os"
 	"os/exec"
 	"path/filepath"
+	"reflect"
 	"sort"
 	"strings"
+	"syscall"
 	"testing"
 
 	"verif.local/engine/evidence"
@@ -39,6 +41,8 @@ type c13Case struct {
 	// JunkRun > 0: the junk arrangement is repeated cyclically until JunkRun junk datagrams stand
 	// in front of the valid one (run length of consecutive junk within one ReadFrom call)
 	JunkRun int `json:"junk_run,omitempty"`
+	// Inner (kinds quic-roundtrip | quic-junk): what the inner sockets CAN DO, see c13InnerClasses
+	Inner string `json:"inner,omitempty"`
 }
 
 func (c *c13Case) key() []byte { return c13KeySpec{c.KeyLen, c.KeyFill}.bytes() }
@@ -306,6 +310,18 @@ func c13RunCase(c *c13Case, pr *c13Pair, dump func(payload, wire []byte)) (claus
 		case "refuse":
 			clause = c13Refuse(c.key())
 			return
+		case "quic-roundtrip", "quic-junk":
+			qp, cl := c13NewQPair(c.key(), c.Inner)
+			if cl != "" {
+				clause = cl
+				return
+			}
+			if c.Kind == "quic-junk" {
+				clause = c13QJunkCase(qp, c.junk(), c.salt(), c.Len)
+			} else {
+				clause = c13QRoundTrip(qp, c.salt(), c.Content, c.Len)
+			}
+			return
 		}
 		if pr == nil {
 			if pr, clause = c13NewPair(c.key()); clause != "" {
@@ -337,6 +353,10 @@ func c13Sig(c *c13Case, clause string) string {
 			return fmt.Sprintf("junk/%s/key=%s,junk=%v,run=%d,len=%d", clause, c13KeySpec{c.KeyLen, c.KeyFill}, c.Junk, c.JunkRun, c.Len)
 		}
 		return fmt.Sprintf("junk/%s/key=%s,junk=%v,len=%d", clause, c13KeySpec{c.KeyLen, c.KeyFill}, c.Junk, c.Len)
+	case "quic-junk":
+		return fmt.Sprintf("quic-junk/%s/inner=%s,key=%s,junk=%v,len=%d", clause, c.Inner, c13KeySpec{c.KeyLen, c.KeyFill}, c.Junk, c.Len)
+	case "quic-roundtrip":
+		return fmt.Sprintf("quic-roundtrip/%s/inner=%s,key=%s,salt=%s,content=%d,len=%d", clause, c.Inner, c13KeySpec{c.KeyLen, c.KeyFill}, c.Salt, c.Content, c.Len)
 	}
 	return fmt.Sprintf("%s/%s/key=%s,salt=%s,content=%d,len=%d", c.Kind, clause, c13KeySpec{c.KeyLen, c.KeyFill}, c.Salt, c.Content, c.Len)
 }
@@ -636,6 +656,13 @@ junk:
 		}
 	}
 
+	// (3c) capability of the inner socket x how the caller drives the wrapped value. Added after the
+	// independently seeded change C13-10 (the wrapper of a UDP-like socket gained ReadMsgUDP/
+	// WriteMsgUDP which, when the inner socket has them too, go straight to it: plaintext on the
+	// wire, junk surfaced, spec-format datagrams not decoded - for a caller that, like quic-go,
+	// prefers those methods when the value offers them).
+	c13QuicPart(sh, mine, report, salts)
+
 recorded:
 	// (4) recorded, not gated: empty datagram and payloads beyond 2040 bytes
 	if env.Shard == 0 {
@@ -738,4 +765,321 @@ func c13ReplaySeq(part string, raw json.RawMessage) (bool, bool, string) {
 
 func TestVerifC13Seq(t *testing.T) {
 	evidence.Main(t, "C13", evidence.Seq{Run: c13Enumerate, Replay: c13ReplaySeq})
+}
+
+// ---- inner sockets of different capability, driven the way quic-go drives a PacketConn -----------
+//
+// Added after the independently seeded change C13-10 (obfsPacketConnUDP gained ReadMsgUDP/
+// WriteMsgUDP delegating to the inner socket without Obfuscate/Deobfuscate). The dimension is what
+// the INNER socket can do - and therefore which wrapper WrapPacketConnSalamander returns and which
+// methods that wrapper offers - together with a caller that picks its I/O methods by probing the
+// wrapped value, as quic-go's wrapConn does with its OOBCapablePacketConn interface. Whatever path
+// is taken, the property's clauses are the same: wire = salt || payload^BLAKE2b-256(key||salt),
+// counts = len(p), the packet arrives unchanged, junk does not surface.
+
+// c13InnerClasses: "plain" = net.PacketConn only; "udplike" = plus SyscallConn/SetReadBuffer/
+// SetWriteBuffer (what realm.PunchPacketConn proxies); "oob" = plus ReadMsgUDP/WriteMsgUDP (the
+// method set of a *net.UDPConn that quic-go probes for).
+var c13InnerClasses = []string{"plain", "udplike", "oob"}
+
+var errC13NoRawConn = errors.New("c13: in-memory socket has no descriptor")
+
+// c13PlainInner hides the buffer setters of the vnet socket: a bare net.PacketConn.
+type c13PlainInner struct{ net.PacketConn }
+
+// c13UDPLikeInner: an in-memory socket with the udp-flavoured methods but no message I/O.
+type c13UDPLikeInner struct{ *c13NoBlock }
+
+func (c *c13UDPLikeInner) SyscallConn() (syscall.RawConn, error) { return nil, errC13NoRawConn }
+
+// c13OOBInner additionally has the *net.UDPConn message methods, over the same in-memory queues
+// (no control data: oobn = 0, flags = 0).
+type c13OOBInner struct {
+	*c13UDPLikeInner
+	msgReads, msgWrites int
+}
+
+func (c *c13OOBInner) ReadMsgUDP(b, oob []byte) (n, oobn, flags int, addr *net.UDPAddr, err error) {
+	c.msgReads++
+	n, from, err := c.c13NoBlock.ReadFrom(b)
+	addr, _ = from.(*net.UDPAddr)
+	return n, 0, 0, addr, err
+}
+
+func (c *c13OOBInner) WriteMsgUDP(b, oob []byte, addr *net.UDPAddr) (n, oobn int, err error) {
+	c.msgWrites++
+	n, err = c.c13NoBlock.PacketConn.WriteTo(b, addr)
+	return n, 0, err
+}
+
+// c13OOBCapable is the method set quic-go's wrapConn probes a net.PacketConn for
+// (quic.OOBCapablePacketConn); a value that has it is read and written through the Msg methods.
+type c13OOBCapable interface {
+	net.PacketConn
+	SyscallConn() (syscall.RawConn, error)
+	SetReadBuffer(int) error
+	ReadMsgUDP(b, oob []byte) (n, oobn, flags int, addr *net.UDPAddr, err error)
+	WriteMsgUDP(b, oob []byte, addr *net.UDPAddr) (n, oobn int, err error)
+}
+
+// c13QuicWrite / c13QuicRead: one packet out / in, by the methods quic-go would choose.
+func c13QuicWrite(pc net.PacketConn, p []byte, addr *net.UDPAddr) (n int, path string, err error) {
+	if oc, ok := pc.(c13OOBCapable); ok {
+		n, _, err = oc.WriteMsgUDP(p, nil, addr)
+		return n, "WriteMsgUDP", err
+	}
+	n, err = pc.WriteTo(p, addr)
+	return n, "WriteTo", err
+}
+
+func c13QuicRead(pc net.PacketConn, b []byte) (n int, from net.Addr, path string, err error) {
+	if oc, ok := pc.(c13OOBCapable); ok {
+		oob := make([]byte, 128)
+		var ua *net.UDPAddr
+		n, _, _, ua, err = oc.ReadMsgUDP(b, oob)
+		if ua != nil {
+			from = ua
+		}
+		return n, from, "ReadMsgUDP", err
+	}
+	n, from, err = pc.ReadFrom(b)
+	return n, from, "ReadFrom", err
+}
+
+// c13QPair: sender A and receiver B wrapped over inner sockets of one capability class.
+type c13QPair struct {
+	key          []byte
+	sentA        *vnet.PacketConn
+	inB          *c13NoBlock
+	connA, connB net.PacketConn
+	obA          *salamanderObfuscator // nil if it could not be found: salts are then not pinned
+	addrA, addrB *net.UDPAddr
+	junkAddr     *net.UDPAddr
+}
+
+func c13NewQPair(key []byte, inner string) (*c13QPair, string) {
+	p := &c13QPair{key: key, addrA: c13Addr(4001), addrB: c13Addr(4002), junkAddr: c13Addr(6666)}
+	p.sentA = vnet.NewPacketConn("innerA", 4001)
+	p.inB = &c13NoBlock{PacketConn: vnet.NewPacketConn("innerB", 4002)}
+	var ia, ib net.PacketConn
+	switch inner {
+	case "plain":
+		ia, ib = &c13PlainInner{p.sentA}, &c13PlainInner{p.inB}
+	case "udplike":
+		ia, ib = &c13UDPLikeInner{&c13NoBlock{PacketConn: p.sentA}}, &c13UDPLikeInner{p.inB}
+	case "oob":
+		ia = &c13OOBInner{c13UDPLikeInner: &c13UDPLikeInner{&c13NoBlock{PacketConn: p.sentA}}}
+		ib = &c13OOBInner{c13UDPLikeInner: &c13UDPLikeInner{p.inB}}
+	default:
+		return nil, "unknown inner socket class " + inner
+	}
+	var err error
+	if p.connA, err = WrapPacketConnSalamander(ia, append([]byte(nil), key...)); err != nil {
+		return nil, "key of " + fmt.Sprint(len(key)) + " bytes refused: " + err.Error()
+	}
+	if p.connB, err = WrapPacketConnSalamander(ib, append([]byte(nil), key...)); err != nil {
+		return nil, "key of " + fmt.Sprint(len(key)) + " bytes refused: " + err.Error()
+	}
+	p.obA = c13QObfs(p.connA)
+	return p, ""
+}
+
+// c13QObfs finds the obfuscator of a wrapped socket by field name (whatever wrapper type it is),
+// only to pin the outbound salt; nil if there is none to be found.
+func c13QObfs(pc net.PacketConn) (ob *salamanderObfuscator) {
+	defer func() { _ = recover() }()
+	v := reflect.ValueOf(pc)
+	for v.Kind() == reflect.Pointer || v.Kind() == reflect.Interface {
+		v = v.Elem()
+	}
+	if f := v.FieldByName("Obfs"); f.IsValid() && f.CanInterface() {
+		ob, _ = f.Interface().(*salamanderObfuscator)
+	}
+	return ob
+}
+
+// c13QPaths records which methods the probing caller ended up using (evidence only).
+var c13QPaths = map[string]int64{}
+
+// c13QRoundTrip: one packet A -> wire -> B, then one reference-format packet into B, all through
+// the methods chosen by probing the wrapped values.
+func c13QRoundTrip(qp *c13QPair, salt []byte, content, n int) string {
+	payload := c13Payload(content, n)
+	orig := append([]byte(nil), payload...)
+	if qp.obA != nil {
+		c13PinSalt(qp.obA, salt)
+	}
+	qp.sentA.Sent = nil
+	nw, wpath, err := c13QuicWrite(qp.connA, payload, qp.addrB)
+	c13QPaths[wpath]++
+	if err != nil {
+		return wpath + " error: " + err.Error()
+	}
+	if nw != n {
+		return fmt.Sprintf("%s reported %d bytes for a %d-byte packet", wpath, nw, n)
+	}
+	if !bytes.Equal(payload, orig) {
+		return wpath + " modified the caller's packet"
+	}
+	if len(qp.sentA.Sent) != 1 {
+		return fmt.Sprintf("%s put %d datagrams on the inner socket, expected 1", wpath, len(qp.sentA.Sent))
+	}
+	sent := qp.sentA.Sent[0]
+	if len(sent.Data) != n+c13SaltLen {
+		return fmt.Sprintf("%s: wire datagram is %d bytes for a %d-byte packet, expected %d (8 salt bytes + payload)", wpath, len(sent.Data), n, n+c13SaltLen)
+	}
+	if d := c13FirstDiff(sent.Data, c13RefWire(qp.key, sent.Data[:c13SaltLen], orig)); d >= 0 {
+		return fmt.Sprintf("%s: wire datagram differs from salt||payload^BLAKE2b-256(key||salt) at wire offset %d (payload offset %d)", wpath, d, d-c13SaltLen)
+	}
+	if !c13SameAddr(sent.Addr, qp.addrB) {
+		return fmt.Sprintf("%s: wire datagram sent to %v, expected %v", wpath, sent.Addr, qp.addrB)
+	}
+	// B receives first what A really sent, then the reference wire packet with the enumerated salt
+	for step, wire := range [][]byte{sent.Data, c13RefWire(qp.key, salt, orig)} {
+		what := []string{"the datagram written through the other wrapped socket", "a reference-format datagram"}[step]
+		qp.inB.Inject(wire, qp.addrA)
+		buf := make([]byte, udpBufferSize)
+		nr, from, rpath, err := c13QuicRead(qp.connB, buf)
+		c13QPaths[rpath]++
+		if err != nil {
+			return fmt.Sprintf("%s error on %s (packet not delivered): %v", rpath, what, err)
+		}
+		if nr != n {
+			return fmt.Sprintf("%s reported %d bytes for %s carrying a %d-byte packet", rpath, nr, what, n)
+		}
+		if d := c13FirstDiff(buf[:nr], orig); d >= 0 {
+			return fmt.Sprintf("%s: packet read from %s differs from the packet written at offset %d", rpath, what, d)
+		}
+		if !c13SameAddr(from, qp.addrA) {
+			return fmt.Sprintf("%s reported source %v, expected %v", rpath, from, qp.addrA)
+		}
+		if qp.inB.Pending() != 0 {
+			return "inner socket still holds packets after the read"
+		}
+	}
+	return ""
+}
+
+// c13QJunkCase: junk datagrams, then a valid one; the first read by the probing caller must be
+// the valid packet.
+func c13QJunkCase(qp *c13QPair, junk []c13JunkSpec, salt []byte, n int) string {
+	jp := &c13Pair{key: qp.key} // c13JunkBytes only needs the key
+	for _, j := range junk {
+		qp.inB.Inject(c13JunkBytes(jp, j), qp.junkAddr)
+	}
+	payload := c13Payload(1, n)
+	qp.inB.Inject(c13RefWire(qp.key, salt, payload), qp.addrA)
+	buf := make([]byte, udpBufferSize)
+	before := qp.inB.reads
+	nr, from, rpath, err := c13QuicRead(qp.connB, buf)
+	c13QPaths[rpath]++
+	if err != nil {
+		return rpath + " error after junk (valid packet not delivered): " + err.Error()
+	}
+	if nr == 0 {
+		return fmt.Sprintf("%s: junk surfaced as an empty read (source %v) instead of being skipped", rpath, from)
+	}
+	if nr != n || !bytes.Equal(buf[:nr], payload) {
+		if nr <= c13SaltLen {
+			return fmt.Sprintf("%s: junk surfaced to the caller as a %d-byte packet", rpath, nr)
+		}
+		return fmt.Sprintf("%s: first read after junk returned %d bytes which are not the valid %d-byte packet", rpath, nr, n)
+	}
+	if !c13SameAddr(from, qp.addrA) {
+		return fmt.Sprintf("%s: valid packet after junk reported from %v, expected %v", rpath, from, qp.addrA)
+	}
+	if got := qp.inB.reads - before; got != len(junk)+1 {
+		return fmt.Sprintf("%s: reader took %d datagrams from the inner socket, expected %d junk + 1 valid", rpath, got, len(junk))
+	}
+	if qp.inB.Pending() != 0 {
+		return "inner socket still holds packets after the read"
+	}
+	return ""
+}
+
+// c13QuicPart enumerates inner capability x key x salt x payload length (round trips) and inner
+// capability x key x junk arrangement x follower (junk).
+func c13QuicPart(sh *evidence.Shard, mine func() bool, report func(*evidence.Part, *c13Case, string), salts []string) {
+	env := sh.Env()
+	p := sh.Part("inner-capability", "enum")
+	lens := c13PyLens
+	if env.Thorough() {
+		lens = nil
+		for n := 1; n <= c13MaxLen; n++ {
+			lens = append(lens, n)
+		}
+	}
+	lensText := fmt.Sprint(lens)
+	if env.Thorough() {
+		lensText = "every length 1..2040"
+	}
+	p.Alphabet = map[string]any{
+		"inner_socket_capability": "plain (net.PacketConn only); udplike (+SyscallConn, SetReadBuffer, SetWriteBuffer); oob (+ReadMsgUDP, WriteMsgUDP, as a *net.UDPConn) - the same class on both ends",
+		"caller":                  "probes the WRAPPED value for quic-go's OOBCapablePacketConn method set (SyscallConn, SetReadBuffer, ReadMsgUDP, WriteMsgUDP): uses WriteMsgUDP/ReadMsgUDP when offered, else WriteTo/ReadFrom",
+		"keys(len,fill)":          fmt.Sprint(c13ValidKeys), "salts": salts, "payload_len": lensText, "content": "position/length dependent pattern",
+		"junk":    "lengths 1..8 x (zeros, prefix of a valid wire packet), one junk packet; all lengths ascending; follower of 1 or 1200 bytes",
+		"checked": "write: count == len(p), one wire datagram == salt||payload^BLAKE2b-256(key||salt), destination; read of that datagram and of a reference datagram with the enumerated salt on the other wrapped socket: count, bytes, source; junk: the first read returns the valid packet, took junk+1 datagrams",
+	}
+	var n int64
+	for _, inner := range c13InnerClasses {
+		for ki, k := range c13ValidKeys {
+			for si := range c13Salts {
+				for _, l := range lens {
+					if !mine() {
+						continue
+					}
+					if n++; n&255 == 0 && env.Expired() {
+						p.Exhaustive = false
+						p.Note("deadline reached in inner-capability at inner %s key %v salt %d len %d; everything before it (in enumeration order) was covered", inner, k, si, l)
+						goto done
+					}
+					c := &c13Case{Kind: "quic-roundtrip", Inner: inner, KeyLen: k.Len, KeyFill: k.Fill, Salt: salts[si], Content: 1, Len: l}
+					p.Evaluations++
+					clause := c13RunCase(c, nil, nil)
+					p.Class(inner, ki, si, c13LenClass(l), clause == "")
+					if l == 33 && si == 2 && ki == 0 {
+						p.Sample(c)
+					}
+					if clause != "" {
+						report(p, c, clause)
+					}
+				}
+			}
+			var arr [][]c13JunkSpec
+			for _, class := range []int{0, 3} {
+				var asc []c13JunkSpec
+				for l := 1; l <= c13SaltLen; l++ {
+					arr = append(arr, []c13JunkSpec{{l, class}})
+					asc = append(asc, c13JunkSpec{l, class})
+				}
+				arr = append(arr, asc)
+			}
+			for ai, junk := range arr {
+				for fi, fl := range []int{1, 1200} {
+					if !mine() {
+						continue
+					}
+					c := &c13Case{Kind: "quic-junk", Inner: inner, KeyLen: k.Len, KeyFill: k.Fill, Salt: salts[(ai+fi)%len(salts)], Len: fl, Junk: junk}
+					p.Evaluations++
+					clause := c13RunCase(c, nil, nil)
+					p.Class(inner, k.String(), junk, fl, clause == "")
+					if inner == "oob" && len(junk) == 1 && junk[0].Len == 8 && junk[0].Class == 3 {
+						p.Sample(c)
+					}
+					if clause != "" {
+						report(p, c, clause)
+					}
+				}
+			}
+		}
+	}
+done:
+	var paths []string
+	for k := range c13QPaths {
+		paths = append(paths, k)
+	}
+	sort.Strings(paths)
+	for _, k := range paths {
+		p.Count("caller_used_"+k, c13QPaths[k])
+	}
 }
